@@ -86,6 +86,38 @@ type taintState struct {
 	cls  map[types.Object]uint64
 	lr   bool // seed .Left/.Right selections with bits 1/2
 	c    *Ctx
+	// the two parameters seeded as first / second operand (nil when the classes come from .Left/.Right only)
+	seedL, seedR types.Object
+}
+
+// pairedNames: do a and b name the first and the second member of a pair
+// (arg0ID / arg1ID, x1 / x2, left / right, lhs / rhs)?
+func pairedNames(a, b string) bool {
+	if len(a) == len(b) {
+		diff := -1
+		for i := 0; i < len(a); i++ {
+			if a[i] != b[i] {
+				if diff >= 0 {
+					diff = -2
+					break
+				}
+				diff = i
+			}
+		}
+		if diff >= 0 && ((a[diff] == '0' && b[diff] == '1') || (a[diff] == '1' && b[diff] == '2')) {
+			// the digit must not be part of a longer number (x10 / x11)
+			if (diff == 0 || a[diff-1] < '0' || a[diff-1] > '9') && (diff+1 == len(a) || a[diff+1] < '0' || a[diff+1] > '9') {
+				return true
+			}
+		}
+	}
+	la, lb := strings.ToLower(a), strings.ToLower(b)
+	for _, pr := range [][2]string{{"left", "right"}, {"lhs", "rhs"}} {
+		if i := strings.Index(la, pr[0]); i >= 0 && la[:i]+pr[1]+la[i+len(pr[0]):] == lb {
+			return true
+		}
+	}
+	return false
 }
 
 func isLRSelection(info *types.Info, x *ast.SelectorExpr) uint64 {
@@ -445,6 +477,49 @@ func (c *Ctx) orderClasses(fn *funcInfo) *taintState {
 			}
 		}
 	}
+	if hasOp {
+		for _, p := range params {
+			switch st.cls[p] {
+			case 1:
+				st.seedL = p
+			case 2:
+				st.seedR = p
+			}
+		}
+	} else {
+		// no operator parameter: a pair of same-typed parameters named as first / second (arg0ID, arg1ID; left, right)
+		var pl, pr *types.Var
+		cnt := 0
+		for i := 0; i < len(params); i++ {
+			for j := i + 1; j < len(params); j++ {
+				if carriesValue(params[i].Type()) && types.Identical(params[i].Type(), params[j].Type()) && pairedNames(params[i].Name(), params[j].Name()) {
+					pl, pr = params[i], params[j]
+					cnt++
+				}
+			}
+		}
+		if cnt == 1 {
+			// a third member of the family (arg, arg1, arg2 / x0, x1, x2) makes it a list, not a pair
+			stem := func(n string) string {
+				return strings.Map(func(r rune) rune {
+					if r >= '0' && r <= '9' {
+						return -1
+					}
+					return r
+				}, n)
+			}
+			for _, q := range params {
+				if q != pl && q != pr && stem(q.Name()) == stem(pl.Name()) {
+					cnt = 0
+				}
+			}
+		}
+		if cnt == 1 {
+			st.cls[pl] = 1
+			st.cls[pr] = 2
+			st.seedL, st.seedR = pl, pr
+		}
+	}
 	st.propagate()
 	return st
 }
@@ -638,12 +713,32 @@ func (c *Ctx) orderSites(pkgs func(string) bool) []orderSite {
 				}
 			}
 		}
+		seedL, seedR := st.seedL, st.seedR
 		ast.Inspect(fn.Decl.Body, func(n ast.Node) bool {
 			switch x := n.(type) {
 			case *ast.BlockStmt:
 				stmtList(x.List)
 			case *ast.CaseClause:
 				stmtList(x.Body)
+			case *ast.AssignStmt:
+				// an operand parameter replaced by a value computed only from the OTHER operand
+				if seedL == nil || seedR == nil || len(x.Lhs) != len(x.Rhs) {
+					return true
+				}
+				for i, l := range x.Lhs {
+					id, ok := ast.Unparen(l).(*ast.Ident)
+					if !ok {
+						continue
+					}
+					o := info.Uses[id]
+					k := classOf(x.Rhs[i])
+					switch {
+					case o == seedR && (k == 1 || k == 2):
+						add("order.pair", "cross", seedR.Name(), x.Pos(), k == 1, types.ExprString(x.Rhs[i]))
+					case o == seedL && (k == 1 || k == 2):
+						add("order.pair", "cross", seedL.Name(), x.Pos(), k == 2, types.ExprString(x.Rhs[i]))
+					}
+				}
 			case *ast.CallExpr:
 				if tv, ok := info.Types[x.Fun]; ok && tv.IsType() {
 					return true // conversion
